@@ -157,6 +157,13 @@ def check_loop(prog, f, loop, reads, bd):
         elif cn['k'] == 'UnaryOperator' and cn['op'] in ('--', 'post--'):
             return True, 'loop condition decrements its own counter'
         for (v, bound, op) in cands:
+            if v['k'] == 'BinaryOperator' and v.get('op') == '-':
+                # `cursor - base < n` : the cursor is the counter when the base stands still in the loop (pointer iteration)
+                a_, b_ = f.unwrap(f.N[v['kids'][0]]), f.unwrap(f.N[v['kids'][1]])
+                if a_['k'] == 'DeclRefExpr' and b_['k'] == 'DeclRefExpr' and '*' in (a_.get('t') or '') and '*' in (b_.get('t') or '') and not any(
+                        (x['k'] in ('BinaryOperator', 'CompoundAssignOperator') and x.get('op', '').endswith('=') and x.get('op') not in ('==', '!=', '<=', '>=') and f.s(x['kids'][0]) == f.s(b_)) or
+                        (x['k'] == 'UnaryOperator' and x.get('op') in ('++', '--', 'post++', 'post--') and f.s(x['kids'][0]) == f.s(b_)) for x in f.walk(loop['id'])):
+                    v = a_
             if v['k'] not in ('DeclRefExpr', 'MemberExpr'):
                 continue
             vs = f.s(v)
